@@ -35,6 +35,11 @@ type Bkt struct {
 	BeforeMut func(idx int, kind, name string)
 	// After is called (under the lock) after every successfully applied mutating operation.
 	After func(op vcrash.Op)
+	// BeforeRead, if set, is called (under the lock) before every read operation (get, getrange, exists, attributes,
+	// iter) of a process that is alive. When it returns true the process dies AT that read: the read and every
+	// later operation (reads and mutations) fail with vcrash.ErrCrashed, the bucket content stays as it is.
+	BeforeRead func(kind, name string) (die bool)
+	killed     bool
 
 	readFault    func(kind, name string) string
 	faultApplied func(kind, name string)
@@ -71,6 +76,33 @@ func blockOf(name string) string {
 	return seg
 }
 
+// Dead reports whether the process died (at a mutating operation: vcrash.DieAtMut, or at a read: BeforeRead).
+func (w *Bkt) Dead() bool {
+	w.mu.Lock()
+	defer w.mu.Unlock()
+	return w.killed || w.Bucket.Dead()
+}
+
+// beforeRead runs the BeforeRead hook; it returns vcrash.ErrCrashed once the process died at a read.
+func (w *Bkt) beforeRead(kind, name string) error {
+	if w.BeforeRead == nil {
+		// set before the process starts and never changed: without it reads take no lock (hooks of other users of
+		// this type may read through it while the lock is held)
+		return nil
+	}
+	w.mu.Lock()
+	defer w.mu.Unlock()
+	if w.killed {
+		return vcrash.ErrCrashed
+	}
+	if !w.Bucket.Dead() && w.BeforeRead(kind, name) {
+		w.killed = true
+		w.cond.Broadcast()
+		return vcrash.ErrCrashed
+	}
+	return nil
+}
+
 func (w *Bkt) Upload(ctx context.Context, name string, r io.Reader, opts ...objstore.ObjectUploadOption) error {
 	body, err := io.ReadAll(r)
 	if err != nil {
@@ -78,6 +110,9 @@ func (w *Bkt) Upload(ctx context.Context, name string, r io.Reader, opts ...objs
 	}
 	w.mu.Lock()
 	defer w.mu.Unlock()
+	if w.killed {
+		return vcrash.ErrCrashed
+	}
 	if w.BeforeMut != nil {
 		w.BeforeMut(w.Bucket.MutCount()+1, "upload", name)
 	}
@@ -89,10 +124,15 @@ func (w *Bkt) Delete(ctx context.Context, name string) error {
 	w.mu.Lock()
 	defer w.mu.Unlock()
 	if w.SerialiseDeletes && blk != "" {
-		for w.delOwner != "" && w.delOwner != blk && !w.Bucket.Dead() {
+		for w.delOwner != "" && w.delOwner != blk && !w.Bucket.Dead() && !w.killed {
 			w.cond.Wait()
 		}
-		w.delOwner = blk
+		if !w.killed {
+			w.delOwner = blk
+		}
+	}
+	if w.killed {
+		return vcrash.ErrCrashed
 	}
 	if w.BeforeMut != nil {
 		w.BeforeMut(w.Bucket.MutCount()+1, "delete", name)
@@ -135,7 +175,24 @@ type failingBody struct{}
 func (failingBody) Read([]byte) (int, error) { return 0, vcrash.ErrInjected }
 func (failingBody) Close() error             { return nil }
 
+func (w *Bkt) GetRange(ctx context.Context, name string, off, length int64) (io.ReadCloser, error) {
+	if err := w.beforeRead("getrange", name); err != nil {
+		return nil, err
+	}
+	return w.Bucket.GetRange(ctx, name, off, length)
+}
+
+func (w *Bkt) Attributes(ctx context.Context, name string) (objstore.ObjectAttributes, error) {
+	if err := w.beforeRead("attributes", name); err != nil {
+		return objstore.ObjectAttributes{}, err
+	}
+	return w.Bucket.Attributes(ctx, name)
+}
+
 func (w *Bkt) Get(ctx context.Context, name string) (io.ReadCloser, error) {
+	if err := w.beforeRead("get", name); err != nil {
+		return nil, err
+	}
 	mode := ""
 	if w.readFault != nil {
 		mode = w.readFault("get", name)
@@ -158,10 +215,16 @@ func (w *Bkt) Exists(ctx context.Context, name string) (bool, error) {
 			<-ch
 		}
 	}
+	if err := w.beforeRead("exists", name); err != nil {
+		return false, err
+	}
 	return w.Bucket.Exists(ctx, name)
 }
 
 func (w *Bkt) Iter(ctx context.Context, dir string, f func(string) error, o ...objstore.IterOption) error {
+	if err := w.beforeRead("iter", dir); err != nil {
+		return err
+	}
 	if w.HoldExistsDuringListing && dir == "" {
 		ch := make(chan struct{})
 		w.listMu.Lock()
@@ -193,6 +256,9 @@ func (w *Bkt) Iter(ctx context.Context, dir string, f func(string) error, o ...o
 }
 
 func (w *Bkt) IterWithAttributes(ctx context.Context, dir string, f func(objstore.IterObjectAttributes) error, o ...objstore.IterOption) error {
+	if err := w.beforeRead("iter", dir); err != nil {
+		return err
+	}
 	mode := ""
 	if w.readFault != nil {
 		mode = w.readFault("iter", dir)
